@@ -96,6 +96,7 @@ class Policy:
         self.partial_show = 0.08        # cash games: table only some of the hole cards
         self.runout = 0.7               # probability a selector expresses a preference
         self.noop = 0.02
+        self.commentary = ()            # texts for no_operate(commentary=...)
         self.illegal = 0.15             # attempt an illegal request before the legal one
         self.explicit_player = 0.4
         self.discard = 0.7
@@ -374,7 +375,8 @@ def play_hand(tid: int, spec: dict, rng: random.Random, pol: Policy, max_steps=4
             if ev['out'] == 'ok':
                 continue
         if rng.random() < pol.noop:
-            steps.append(play.step(st, 'no_operate', NOARGS, werr, probes, psame=psame))
+            na = dict(NOARGS, c=rng.choice(pol.commentary)) if pol.commentary else NOARGS
+            steps.append(play.step(st, 'no_operate', na, werr, probes, psame=psame))
             probes, psame = [], True
         tot = sum(w for w, _, _ in moves)
         x = rng.random() * tot
